@@ -234,7 +234,12 @@ def scanner_description(fn_node: ast.AST) -> dict:
         # main loop
         for w in [x for x in ast.walk(st) if isinstance(x, ast.While)]:
             for n in ast.walk(w):
-                if isinstance(n, ast.If) and _char_test(n.test) == {'['} and any(_is_posix_call(x) for s in n.body for x in ast.walk(s)):
+                if not isinstance(n, ast.If):
+                    continue
+                # `if c == '[': <posix handler>` or `if c == '[' and (x := <posix handler>)`
+                t0 = n.test.values[0] if isinstance(n.test, ast.BoolOp) and isinstance(n.test.op, ast.And) else n.test
+                if _char_test(t0) == {'['} and (any(_is_posix_call(x) for s in n.body for x in ast.walk(s)) or
+                                                any(_is_posix_call(x) for x in ast.walk(n.test))):
                     loop_posix = True
         break
     return {'stages': stages, 'loop_posix': loop_posix}
@@ -352,10 +357,9 @@ def _scan_summary(repo: Any, fi: Any) -> set:
                 guards.append((k.replace(S, 'C').replace(pre, ''), v))
         # the iteration proper: between the loop entry and the end of the iteration
         evs = list(p.events)
-        lo = next((k for k, e in enumerate(evs) if e[0] == 'loop'), None)
         hi = next((k for k, e in enumerate(evs) if e[0] == 'iterend'), None)
-        inside = evs[lo + 1:hi] if lo is not None and hi is not None else []
-        outside = (evs[:lo] + evs[hi + 1:]) if lo is not None and hi is not None else evs
+        inside = evs[:hi] if hi is not None else []     # (what precedes the loop is the same on every row)
+        outside = evs[hi + 1:] if hi is not None else evs
 
         def show(seq: list) -> tuple:
             calls = []
@@ -369,13 +373,11 @@ def _scan_summary(repo: Any, fi: Any) -> set:
             return tuple(calls)
         if guards and inside:
             rows.add((tuple(sorted(guards)), show(inside)))
-        # discipline of the outcome: failure = everything read is put back and False is returned; success = True without a failure handler
+        # discipline of the outcome: failure = everything read is put back and False is returned
         out = show(outside)
         if p.ret is False:
             rows.add(('failure puts everything back', bool(out) and out[-1] == 'rewind'))
-        elif p.ret is True:
-            rows.add(('success without failure handling', not any(x.startswith('except') for x in out)))
-        elif not p.raised:
+        elif p.ret is not True and not p.raised:
             rows.add(('returns', _tag(p.ret)))
     return rows
 
